@@ -91,6 +91,10 @@ func init() {
 		at := ex.nondet(name+".cancelAt", SInt(64, true))
 		return &IfaceV{V: &CtxV{Name: name, Cancel: at}}
 	}
+	I[rtPkg+"CancelCtxAt"] = func(ex *Exec, a []Value) Value {
+		return &IfaceV{V: &CtxV{Name: "ctx", Cancel: a[0].(*Term)}}
+	}
+	I[rtPkg+"TimeAt"] = func(ex *Exec, a []Value) Value { return ex.timeValue(a[0].(*Term)) }
 	I[rtPkg+"Offer"] = func(ex *Exec, a []Value) Value {
 		var ch *ChanV
 		switch x := a[0].(type) {
@@ -205,6 +209,13 @@ func init() {
 
 	// ---- time -------------------------------------------------------------------
 	I["time.Now"] = func(ex *Exec, a []Value) Value {
+		if ex.h.Opts["clock"] == "frozen" {
+			// virtual clock on which computation is instantaneous: only a blocking select (or the
+			// harness) advances time
+			t := ex.now()
+			ex.readings = append(ex.readings, t)
+			return ex.timeValue(t)
+		}
 		ex.nowCnt++
 		t := ex.nondet(fmt.Sprintf("now%d", ex.nowCnt), SInt(64, true))
 		lo := ex.clock
